@@ -1,5 +1,5 @@
 (* run_regex.ml - dispatch of slice regex (Rewrite, Xsd, XsdParse); compiled after model_regex.ml and helpers.ml.
-   rewrite <pattern>                       -> E | hex of the rewritten text | UB (C behaviour undefined) | FUEL
+   rewrite <pattern>                       -> E | hex of the rewritten text | FUEL (model fuel exhausted: never)
    match <pattern> <string>+               -> per string "b b" (joined by ','), b = XSD answer 1/0, or "X X" (pattern
                                               outside the modelled XSD subset, or not UTF-8)
    matchlist <string> (<inv> <pattern>)*   -> 1/0 (validate_patterns over the XSD matcher), X as above *)
@@ -12,7 +12,7 @@ let run (f : string list) : string =
   | ["rewrite"; h] ->
       (match rewrite (unhex h) with
        | Ok q -> hex q
-       | Err e -> (match int_of_n e with 4 -> "UB" | 9 -> "FUEL" | _ -> "E"))
+       | Err e -> (match int_of_n e with 9 -> "FUEL" | _ -> "E"))
   | "match" :: p :: ss ->
       let pat = unhex p in
       (match parse pat with
